@@ -164,6 +164,23 @@ Section MP.
       unfold tdone in Hd. rewrite Hp in Hd. destruct (todo t) as [|c cs]; [discriminate|].
       rewrite prog_cs. unfold cs_prog. rewrite Hl. discriminate.
   Qed.
+
+  (* the lock is released on every exit path: whenever no thread is inside a call -- whatever the calls
+     returned, an exception code included -- the lock is free *)
+  Theorem lock_free_between_calls s : Inv s -> (forall t, In t (threads s) -> pcl t = []) -> lock s = None.
+  Proof.
+    intros [Ht Ho] Hidle. destruct (lock s) as [i|] eqn:Hl; [|reflexivity]. exfalso.
+    destruct (Ho i eq_refl) as (t & Hi). destruct (Ht _ _ Hi) as [_ Hlk].
+    assert (Hp : pcl t <> []) by (apply Hlk; reflexivity).
+    apply Hp. apply Hidle. eapply nth_error_In; eauto.
+  Qed.
+
+  Corollary lock_free_when_done s : Inv s -> all_done s = true -> lock s = None.
+  Proof.
+    intros HI Hd. apply lock_free_between_calls; auto. intros t Hin.
+    unfold Machine.all_done in Hd. rewrite forallb_forall in Hd. specialize (Hd t Hin).
+    unfold tdone in Hd. destruct (pcl t); [reflexivity|discriminate].
+  Qed.
 End MP.
 
 (* A proof-outline rule for programs that are NOT one critical section (YamlTargetSource.get_data):
